@@ -493,6 +493,8 @@ impl Property for C03 {
                     }
                 }
                 Fate::NeverInFlight(c) => {
+                    // only a receipt after the call shows that the message survived it (an earlier one would be C14's business)
+                    let recv = mi.recvs.iter().map(|r| &tr.evs[*r]).find(|r| r.seq > tr.evs[c].seq);
                     if let (Some(r), None) = (recv, &violation) {
                         violation = Some(Violation::new(
                             "InFlightSurvived",
